@@ -115,6 +115,18 @@ def parse_alphabet():
         PARSED[k] = Burst.from_bytes(raw, burst_type=bt)
 
 
+RBUF = bytearray(33)
+
+
+def received(name):
+    """the burst as a receive loop hands it over: parsed from a buffer that is re-used (overwritten) before the burst is processed"""
+    raw, bt = ALPHA[name]
+    RBUF[:] = raw
+    b = Burst.from_bytes(RBUF, burst_type=bt)
+    RBUF[:] = b"\x5a" * 33
+    return b
+
+
 def pdu_sig(p):
     """(type name, bits).  For rate blocks the tracker re-parses the block with the confirmed/last typing it derived, which
     selects a different slice of the same info bits as user data: the sig carries the user-data bits, compared by containment"""
@@ -334,7 +346,7 @@ class Tracker(explore.System):
         name, ts = ev
         viol = []
         SEAMS.tok = self.tok
-        burst = copy.deepcopy(PARSED[name])
+        burst = received(name)
         for r in [self.rec_a, self.rec_b] + list(self.slot_rec.values()):
             r.events = []
         slot = self.term.timeslots[ts]
@@ -483,7 +495,7 @@ class WatcherSys(explore.System):
                         viol.append(("started_during_end_all", {**case, "terminal": key[0]}))
             self.obs = ("END_ALL", tuple(sorted((k, len(r.events)) for k, r in self.slot_rec.items())))
             return viol
-        burst = copy.deepcopy(PARSED[name])
+        burst = received(name)
         burst.timeslot = 1
         if tg:
             burst.target_radio_id = tg
